@@ -614,6 +614,13 @@ def _n4_block(params, lo, hi):
 def replay(v):
     w = v["witness"]
     r = new_result()
+    if w.get("paths"):
+        i = [nw[0] for nw in path_networks()].index(w["paths"]) * 3 + w.get("order", 0)
+        rr = _paths_chunk(None, i, i + 1)
+        for x in rr["violations"]:
+            if x["function"] == v["function"] and x["witness"].get("demand") == w.get("demand"):
+                return x
+        return rr["violations"][0] if rr["violations"] else None
     if w.get("layered5"):
         from solvor.flow import min_cost_flow
 
